@@ -41,6 +41,9 @@ type c19Case struct {
 	// (a symbolic link to a character device) sorting before, between or after
 	// the files
 	Glob int `json:"glob,omitempty"`
+	// Listen: the server also has its HTTP listener, as the mtail command always
+	// has (1: a TCP port on loopback, 2: a unix socket); the run ends all the same
+	Listen int `json:"listen,omitempty"`
 }
 
 func (f c19File) bytes() string {
@@ -159,8 +162,15 @@ func runC19x(c c19Case) *vstat.Failure {
 	}
 	nch := make(chan newRes, 1)
 	go func() {
-		s, err := mtail.New(ctx, store, mtail.ProgramPath(progDir), mtail.LogPathPatterns(patterns...), mtail.OneShot,
-			mtail.LogstreamPollWaker(newWaker()), mtail.LogPatternPollWaker(newWaker()))
+		opts := []mtail.Option{mtail.ProgramPath(progDir), mtail.LogPathPatterns(patterns...), mtail.OneShot,
+			mtail.LogstreamPollWaker(newWaker()), mtail.LogPatternPollWaker(newWaker())}
+		switch c.Listen {
+		case 1:
+			opts = append(opts, mtail.BindAddress("127.0.0.1", "0"))
+		case 2:
+			opts = append(opts, mtail.BindUnixSocket(filepath.Join(root, "h.sock")))
+		}
+		s, err := mtail.New(ctx, store, opts...)
 		nch <- newRes{s, err}
 	}()
 	var srv *mtail.Server
@@ -342,7 +352,7 @@ func c19RunRaw(raw json.RawMessage) *vstat.Failure {
 }
 
 func TestC19(t *testing.T) {
-	st := vstat.New("C19", "one-shot runs of a real mtail server (mtail.New with OneShot, then Run) over 1-3 programs from the typed grammar G plus a witness program that records the arrival order, and 1-3 files, named one by one or by a glob pattern that may also match an entry that cannot be tailed, with generated contents (lines instantiated from the programs' patterns; empty files, CRLF, a final unterminated line, 0-200 lines); oracle: Run returns within a deadline; the witness saw every line of every file exactly once and each file's lines in order; every program's final metrics equal those of running it in-process over exactly that interleaving. A set containing a program that does not compile must be refused promptly. non-trivial = >= 2 files and >= 2 programs (witness included) and a file with an unterminated last line; distinct by case")
+	st := vstat.New("C19", "one-shot runs of a real mtail server (mtail.New with OneShot, with or without its HTTP listener, then Run) over 1-3 programs from the typed grammar G plus a witness program that records the arrival order, and 1-3 files, named one by one or by a glob pattern that may also match an entry that cannot be tailed, with generated contents (lines instantiated from the programs' patterns; empty files, CRLF, a final unterminated line, 0-200 lines); oracle: Run returns within a deadline; the witness saw every line of every file exactly once and each file's lines in order; every program's final metrics equal those of running it in-process over exactly that interleaving. A set containing a program that does not compile must be refused promptly. non-trivial = >= 2 files and >= 2 programs (witness included) and a file with an unterminated last line; distinct by case")
 	st.Assumptions = []string{"every program is handed the lines in the same global order (one dispatcher), so the witness's record is the interleaving of all programs", "30 s deadline for a run that normally takes milliseconds"}
 	st.Run(t, c19RunRaw, func() {
 		feats := gen.AllFeatures()
@@ -397,6 +407,10 @@ func TestC19(t *testing.T) {
 				c.Files = append(c.Files, f)
 			}
 			c.Glob = rapid.SampledFrom([]int{0, 0, 1, 2, 3, 4}).Draw(rt, "glob")
+			c.Listen = rapid.SampledFrom([]int{0, 1, 2}).Draw(rt, "listen")
+			if c.Listen > 0 {
+				st.Class("with-http-listener")
+			}
 			if c.Glob >= 2 {
 				st.Class("pattern-matches-an-untailable-entry")
 			}
